@@ -196,6 +196,18 @@ impl Session {
         }
         false
     }
+    /// wait (bounded, generous: the forwarder thread may be starved on a loaded machine) until the captured
+    /// output equals `want`; returns what was captured when the wait ended
+    pub fn wait_stdout_eq(&self, want: &[u8], ms: u64) -> Vec<u8> {
+        let t0 = std::time::Instant::now();
+        loop {
+            let got = self.out.lock().unwrap().clone();
+            if got == want || t0.elapsed() > std::time::Duration::from_millis(ms) {
+                return got;
+            }
+            std::thread::sleep(std::time::Duration::from_millis(3));
+        }
+    }
     pub fn pid_now(&self) -> Pid {
         self.dbg.process().pid()
     }
